@@ -293,7 +293,13 @@ func genReq(rt *rapid.T, l string, faulty bool) Req {
 		}
 		r.Start, r.End, r.Time = num("start", "946684800"), num("end", "946684860"), num("time", "946684860")
 		// evaluation instants start + k*step, also below one second
-		r.Step = rapid.SampledFrom([]string{"15", "15", "1", "0.5", "0.25", "250ms"}).Draw(rt, l+".pstep")
+		r.Step = rapid.SampledFrom([]string{"15", "15", "1", "0.5", "0.25", "250ms", "0.05", "0.007"}).Draw(rt, l+".pstep")
+		if !hostileParams && rapid.IntRange(0, 3).Draw(rt, l+".wide") == 0 {
+			// an hour in steps wider than the look-back window and than any range in the catalogue: the engine has to
+			// seek inside a series between two evaluation instants, past its last sample
+			r.End = "946688400"
+			r.Step = rapid.SampledFrom([]string{"600", "301", "900"}).Draw(rt, l+".widestep")
+		}
 	case r.Kind == "search" || strings.HasPrefix(r.Kind, "tag"):
 		r.Query = rapid.SampledFrom(traceQLs).Draw(rt, l+".tq")
 		r.Start, r.End = num("start", "946684800"), num("end", "946684860")
